@@ -22,6 +22,7 @@ PY
 if ! git apply --check "$SD/patch.diff" 2>/dev/null; then
   echo "{\"repo_head\":\"$HEAD\",\"patch_applies\":false}" > $OUT; cat $OUT; git -C /repo worktree remove --force $WT; exit 1
 fi
+apply_demo() {
 # ---- demonstration files
 DEMO_TESTS=()
 if [ -f "$SD/demo.diff" ]; then
@@ -38,6 +39,7 @@ fi
 git status --porcelain | grep -E '^\?\? .*tests/' | sed 's/^?? //' > /tmp/sv-newfiles.txt
 git status --porcelain | grep -E 'tests/.*\.rs$' | awk '{print $2}' >> /tmp/sv-newfiles.txt
 sort -u /tmp/sv-newfiles.txt -o /tmp/sv-newfiles.txt
+}
 run_demo() { # prints PASS/FAIL per demo test target
   local all=PASS
   while read f; do
@@ -58,6 +60,7 @@ unshare -n bash -c "ip link set lo up; CARGO_TARGET_DIR=$TGT timeout 900 cargo t
 PASSED=$(grep -E "^test result" /tmp/sv-suite.log | sed -E 's/.* ([0-9]+) passed.*/\1/' | paste -sd+ | bc)
 FAILED_NAMES=$(grep -E "^test .* \.\.\. FAILED" /tmp/sv-suite.log | awk '{print $2}' | sort | paste -sd, )
 COMPILES=true; grep -qE "could not compile|^error\[E" /tmp/sv-suite.log && COMPILES=false
+apply_demo
 DEMO_WITH=$(run_demo)
 git apply -R "$SD/patch.diff"
 DEMO_WITHOUT=$(run_demo)
